@@ -1097,8 +1097,12 @@ class Ev:
                 if got[1] is not None:
                     owner, fn = got
                     return self.bind(fn, owner, v)
-                if attr in c.class_assigns and c.class_assigns[attr] is not None:
-                    return self.ev(c.class_assigns[attr], {"__mod__": c.mod, "__clsbody__": c}, c.mod)
+                for c_ in self.repo.mro(c):
+                    if attr in c_.class_assigns and c_.class_assigns[attr] is not None:
+                        if (id(c_), attr) not in self.class_attrs:
+                            # evaluated once: the value belongs to the class, every instance sees the same object
+                            self.class_attrs[(id(c_), attr)] = self.ev(c_.class_assigns[attr], {"__mod__": c_.mod, "__clsbody__": c_}, c_.mod)
+                        return self.class_attrs[(id(c_), attr)]
             if attr.startswith("_") and attr[1:] in v.fields:
                 return v.fields[attr[1:]]
             if "_" + attr in v.fields:
@@ -1829,10 +1833,23 @@ class Ev:
             target = self.ev(f, env, mod)
         return self.apply(target, args, kwargs, e, mod)
 
+    def helper_class(self, c):
+        """a class of the repository that only carries behaviour (it is callable, subscriptable, or a private class
+        that is no record): its instances are evaluated as objects, not recorded as constructor terms"""
+        if c.is_enum or c.is_dataclass or any(b.split(".")[-1] in ("NamedTuple", "Enum", "Exception", "ABC", "IDrawable") for b in c.bases):
+            return False
+        if "__call__" in c.methods or "__getitem__" in c.methods:
+            return True
+        return c.name.startswith("_") and not c.name.startswith("__") and not c.bases
+
     def apply(self, target, args, kwargs, e, mod):
         try:
             if isinstance(target, FuncV):
                 return self.call_fn(target, args, kwargs, e)
+            if isinstance(target, Obj) and target.cls is not None and not isinstance(target, Lenient):
+                owner, fn = self.repo.find_method(target.cls, "__call__")
+                if fn is not None:
+                    return self.call_fn(FuncV(fn, self_val=target, cls=owner, mod=owner.mod), args, kwargs, e)
             if isinstance(target, ClassRef):
                 c = target.cls
                 if c.is_enum:
@@ -1868,7 +1885,7 @@ class Ev:
                 if c.name in self.ctor_models:
                     return self.ctor_models[c.name](args, kwargs)
                 got = self.repo.find_method(c, "__init__")
-                if c.name in self.instantiate:
+                if c.name in self.instantiate or self.helper_class(c):
                     o = Obj(c, {}, closed=True)
                     if got[1] is not None:
                         self.call_fn(FuncV(got[1], self_val=o, cls=got[0], mod=got[0].mod), args, kwargs, e)
@@ -2789,6 +2806,13 @@ class Ev:
     def subscript(self, v, sl, env, mod, node):
         if isinstance(v, Frag):
             return v
+        if isinstance(v, Obj) and v.cls is not None and not isinstance(v, Lenient):
+            owner, fn = self.repo.find_method(v.cls, "__getitem__")
+            if fn is not None:
+                key = self.ev(sl, env, mod) if not isinstance(sl, ast.Slice) else None
+                if key is None:
+                    raise Undecided("slice of %r" % (v,))
+                return self.call_fn(FuncV(fn, self_val=v, cls=owner, mod=owner.mod), [key], {}, node)
         if self.outside_value(v) or (isinstance(v, Sym) and isinstance(sl, (ast.Slice, ast.Tuple))):
             # an item / a slice of a value of an uninterpreted library (an array): an uninterpreted function of it;
             # slices keep their bounds so that rules can tell the whole from a part
